@@ -576,7 +576,7 @@ def c16_groups(tier):
     gs += [g for g in c07_groups(tier, 'C16') if 'lweCreateKeySwitchKey.unbounded' in g.name and ('t=8' in g.name or 't=2' in g.name or tier != 'quick')]
     gs += [g for g in c09_groups(tier, 'C16') if 'tGswAddMuH.k=1.l=2' in g.name or 'tGswExternProduct' in g.name or ('tGswAddMuH' in g.name and tier != 'quick')]
     gs += [g for g in c03_groups(tier, 'C16') if 'tGswSymDecrypt' in g.name]
-    gs += c18_groups(tier, 'C16')                     # binary readers: every destination writable for the byte count requested
+    gs += [g for g in c18_groups(tier, 'C16') if '.native.' not in g.name]                     # binary readers: every destination writable for the byte count requested
     gs += [g for g in c17_groups(tier, 'C16') if 'write+read' in g.name or 'key+sample' in g.name]     # binary writers: every source readable for the byte count
     gs += boot_groups('C16')
     gs += [g for g in c08_groups(tier, 'C16') if 'translate' in g.name]      # bounded (real table) and unbounded-in-n (uniform table) variants
@@ -790,9 +790,17 @@ def stream_adapter_native(group):
     det = str(r.get('detail', ''))[:400].replace('\n', ' ')
     if not r.get('confirmed') and 'satisfies the oracle' not in det:
         raise X.ExtractionError('native stream-adapter oracle could not be run: %s' % det)
-    return [('stream_adapters.short_read_or_foreign_tag_never_accepted', not r.get('confirmed'),
+    r2 = nreplay.io_r(group, {}, 'C18nl')
+    det2 = str(r2.get('detail', ''))[:300].replace('\n', ' ')
+    if not r2.get('confirmed') and 'satisfies the oracle' not in det2:
+        raise X.ExtractionError('native stream-adapter oracle (C18nl) could not be run: %s' % det2)
+    nl = ('text_section.minus_final_newline.stream_transport', not r2.get('confirmed'),
+          'bounded native check: the text export of a parameter object without its final newline is rejected over the C++ stream transport'
+          + ('' if not r2.get('confirmed') else ': ' + det2))
+    return [nl, ('stream_adapters.short_read_or_foreign_tag_never_accepted', not r.get('confirmed'),
              'bounded native check of StdIstream::fread / CIstream::fread under the real readers: every proper prefix and every foreign type tag '
-             'of small exports is rejected (stream failed, or process terminated)' + ('' if not r.get('confirmed') else ': ' + det))]
+             'of small binary exports, and every proper prefix of three text exports on both transports (except the one above), is rejected '
+             '(stream failed, or process terminated)' + ('' if not r.get('confirmed') else ': ' + det))]
 
 
 def c18_groups(tier, tag='C18'):
